@@ -149,6 +149,7 @@ func stateInlineAnnotationText(s *Scanner, c byte) state {
 			s.found(lexeme.InlineAnnotationTextEnd)
 			s.found(lexeme.InlineAnnotationEnd)
 			s.step = stateInlineAnnotationTextSkip
+			s.inComment = true
 		}
 	}
 	return scanContinue
@@ -160,6 +161,7 @@ func stateInlineAnnotationTextSkip(s *Scanner, c byte) state {
 	}
 
 	s.found(lexeme.NewLine)
+	s.inComment = false
 	fn := s.returnToStep.Pop()
 	s.step = func(s *Scanner, c byte) state {
 		if s.isAnnotationStart(c) {
